@@ -60,7 +60,7 @@ type BPOp struct {
 	Txs      []BPTx    `json:"txs,omitempty"`
 	Blocks   []BPBlock `json:"blocks,omitempty"`
 	Depth    int       `json:"depth,omitempty"`
-	FinalAdv int       `json:"final_adv,omitempty"` // head/reorg: finalized block moves to head-FinalLag first... see run
+	FinalAdv int       `json:"final_adv,omitempty"` // head/reorg: the finalized block advances by this many blocks (never past the new head)
 	Tip      uint64    `json:"tip,omitempty"`
 	// Crash: the data directory is imaged after the ImageAt-th store event (Put or
 	// Delete on either billy store) of this operation, or at its end if it has
@@ -207,10 +207,10 @@ func genBP(r *simcore.Rand, tier string) any {
 	k.ExcessM = r.Range(0, 20)
 
 	var serial uint64
-	nops := r.Range(6, 22)
+	nops := r.Range(5, 16)
 	for i := 0; i < nops; i++ {
 		var op BPOp
-		switch r.Pick(50, 16, 10, 4, 8) {
+		switch r.Pick(45, 18, 14, 4, 8) {
 		case 0:
 			op.Kind = "add"
 			nt := r.Pick(6, 3, 1) + 1
@@ -226,7 +226,7 @@ func genBP(r *simcore.Rand, tier string) any {
 			for j := 0; j < nb; j++ {
 				op.Blocks = append(op.Blocks, genBPBlock(r, k, &serial, false))
 			}
-			op.FinalAdv = r.Pick(5, 3, 2, 1)
+			op.FinalAdv = r.Pick(7, 2, 1)
 		case 2:
 			op.Kind = "reorg"
 			op.Depth = r.Pick(6, 3) + 1
@@ -234,7 +234,7 @@ func genBP(r *simcore.Rand, tier string) any {
 			for j := 0; j < nb; j++ {
 				op.Blocks = append(op.Blocks, genBPBlock(r, k, &serial, true))
 			}
-			op.FinalAdv = r.Pick(6, 2, 1)
+			op.FinalAdv = r.Pick(8, 1, 1)
 		case 3:
 			op.Kind = "tip"
 			op.Tip = uint64([]int{1, 1000, 3000, 10000, 50000}[r.Intn(5)]) + uint64(r.Intn(3))
